@@ -847,6 +847,28 @@ func (e *Engine) resolveStructInvs() error {
 			if len(parts) > 0 {
 				si.fields[strings.Join(parts, ".")] = true
 				si.stable[strings.Join(parts, ".")] = true
+				// struct-valued prefixes of the path (embedded or by-value struct fields)
+				var t2 types.Type = si.rootType
+				for k := 0; k+1 < len(parts); k++ {
+					st2 := structOf(t2)
+					if st2 == nil {
+						break
+					}
+					var ft types.Type
+					for fi := 0; fi < st2.NumFields(); fi++ {
+						if st2.Field(fi).Name() == parts[k] {
+							ft = st2.Field(fi).Type()
+						}
+					}
+					if ft == nil || isPointer(ft) || structOf(ft) == nil {
+						break
+					}
+					if si.embeddedRoots == nil {
+						si.embeddedRoots = map[string]string{}
+					}
+					si.embeddedRoots[types.TypeString(ft, nil)] = strings.Join(parts[:k+1], ".")
+					t2 = ft
+				}
 			}
 		}
 		allowed := map[string]bool{}
@@ -938,9 +960,12 @@ func (e *Engine) resolveStructInvs() error {
 						}
 					}
 					// walk the chain of field/index addresses down to the one rooted at a *T
+					// (or at a pointer to a struct that T embeds by value on the path of an
+					// invariant field: a method of the embedded struct writes the same memory)
 					var cur ssa.Value = st.Addr
 					var names []string
 					rooted := false
+					viaEmbedded := ""
 					for cur != nil && !rooted {
 						switch a := cur.(type) {
 						case *ssa.FieldAddr:
@@ -948,6 +973,14 @@ func (e *Engine) resolveStructInvs() error {
 							names = append([]string{structOf(pt.Elem()).Field(a.Field).Name()}, names...)
 							if types.Identical(pt.Elem(), si.rootType) {
 								rooted = true
+							} else if pre, ok := si.embeddedRoots[types.TypeString(pt.Elem(), nil)]; ok {
+								_, inner := a.X.(*ssa.FieldAddr)
+								_, local := a.X.(*ssa.Alloc) // a local copy of the struct, not an object's field
+								if !inner && !local {
+									names = append(strings.Split(pre, "."), names...)
+									rooted = true
+									viaEmbedded = types.TypeString(pt.Elem(), nil)
+								}
 							}
 							cur = a.X
 						case *ssa.IndexAddr:
@@ -962,9 +995,12 @@ func (e *Engine) resolveStructInvs() error {
 					if hit := si.touches(strings.Join(names, ".")); hit != "" {
 						// a writer under a verified contract re-establishes the invariant at the store (structInvStore);
 						// the field's value is then no longer constant, only the invariant is
-						if con := e.contracts[fn.String()]; con != nil && !con.Trusted && !si.WritersOnly {
+						if con := e.contracts[fn.String()]; con != nil && !con.Trusted && !si.WritersOnly && viaEmbedded == "" {
 							si.stable[hit] = false
 							continue
+						}
+						if viaEmbedded != "" && !si.WritersOnly {
+							return fmt.Errorf("structinv %s: field %s is written in %s through a pointer to the embedded %s (such a store cannot re-establish the invariant of the containing object)", si.TypeName, hit, fn, viaEmbedded)
 						}
 						if si.WritersOnly {
 							// reported with the checks of the properties the listed writers serve
